@@ -1,1 +1,3 @@
-pub fn hello() {}
+pub mod bridge;
+pub mod engine;
+pub mod scopes;
